@@ -31,7 +31,9 @@ CLAIMED = {
     "C02": (MC, "Run-time half: assign_raw_pointer on tainted and tainted_volatile and UNSAFE_accept_pointer for six pointee kinds abort iff the address is "
                 "outside that sandbox's region (symbolic base and address; with two live sandboxes the address may be in the other one); accepted values "
                 "are stored unchanged / as the representation relative to that sandbox, touching only the cell.",
-            "The compile-time half of C02 (rejected program shapes) is NOT decided: a rejected program has no IR to execute (same reason as C01).", "DESIGN.md 4/C02"),
+            "Compile-time half: only as 'rejected or checked' for eight listed program shapes (optional kernels with positive controls): a shape the tree rejects has no IR "
+            "to execute and counts as held; a shape a tree accepts must satisfy the run-time obligation. The general compile-time clause (all programs) is NOT decided "
+            "(same reason as C01).", "DESIGN.md 4/C02"),
     "C04": (MC, "Four translation entry points, convert_type in all direction x context combinations, arrays of pointers, pointer cells, pointer arrays and "
                 "struct pointer fields (store and load), free: round trips and 0<->null for all 2^32 offsets and symbolic base; three live sandbox objects of "
                 "a multi-instance backend in all 6 creation orders x 7 destroy choices through the real sandbox_list/find_sandbox_from_example: a cell in "
@@ -61,8 +63,8 @@ CLAIMED = {
                 "token is absent; constructor as base case - covers histories of any length up to the limit bound. Owner objects (move, overwrite, destroy, "
                 "unregister) on the real container: all histories up to the depth bound against a reference model; stale-token lookups abort.",
             "limit<=12 quick / 40 thorough; 8-bit tokens; owner histories depth 3/4.", "DESIGN.md 4/C15"),
-    "C13": (MC, "noop backend: every history up to the depth bound over 21 concrete ownership operations (register f_i into o_j, unregister, move-assign onto "
-                "empty/live owners, move-construct+destroy) on 3 functions x 3 owners, run in lock-step with a reference model written from the property text: "
+    "C13": (MC, "noop backend: every history up to the depth bound over 24 concrete ownership operations (register f_i into o_j, unregister, move-assign onto "
+                "empty/live owners, self-move-assign, move-construct+destroy) on 3 functions x 3 owners, run in lock-step with a reference model written from the property text: "
                 "abort exactly on duplicate registration, is_unregistered() per owner after every step, and at the end exactly the live owners' functions are "
                 "reachable through their entry points; 65 registrations on the 64-entry table are refused; slot reuse (first/middle/last) works; owner "
                 "operations after destroy_sandbox are harmless.",
